@@ -87,6 +87,14 @@ class Site:
     def __init__(self, fn, block, kind, what, ops, at, t, reason):
         self.fn, self.block, self.kind, self.what, self.ops, self.at, self.t, self.reason = fn, block, kind, what, ops, at, t, reason
 
+    @property
+    def origin(self):
+        """the (inlined) helper this site's block was spliced from, if any"""
+        try:
+            return self.fn.blocks[self.block].get("origin")
+        except Exception:
+            return None
+
     def sig(self):
         """stable provenance signature of the operands (no block ids, no lines)"""
         return "; ".join(_sig(e) for e in self.ops)
@@ -625,20 +633,39 @@ def check_cone(r, p, cone, prop, allow=None, satisfied=(), ordinal=True):
     pats = load_patterns()
     seen = {}
     stats = {"sites": 0, "guard": 0, "allow": 0, "flagged": 0}
+    # a site inside a helper that was spliced into several callers is one construct: it is judged in every
+    # calling context and reported once
+    groups, order = {}, []
     for s in sites:
+        gk = (s.origin, str(s.at), s.kind, s.what) if s.origin else ("", id(s))
+        if gk not in groups:
+            groups[gk] = []
+            order.append(gk)
+        groups[gk].append(s)
+    for gk in order:
+        members = groups[gk]
+        verdicts = []
+        for s in members:
+            g = discharge_by_guard(p, s)
+            if g:
+                verdicts.append((s, "guard", g, None))
+                continue
+            verdicts.append((s, None, None, None))
+        bad = [v for v in verdicts if v[1] is None]
+        s = (bad[0] if bad else verdicts[0])[0]
         k = s.key()
         n = seen.get(k, 0)
         seen[k] = n + 1
         if n:
             k = "%s #%d" % (k, n)
         stats["sites"] += 1
-        g = discharge_by_guard(p, s)
-        if g:
+        if not bad:
             stats["guard"] += 1
-            r.ok("site:" + k, fn=s.fn, site=s.at, detail="discharged by guard: " + g)
+            r.ok("site:" + k, fn=s.fn, site=s.at, detail="discharged by guard: " + verdicts[0][2] + (" (in all %d calling contexts)" % len(members) if len(members) > 1 else ""))
             continue
-        ent = allow.get(k) or match_pattern(s, pats)
-        if ent and (not ent.get("requires") or ent["requires"] in satisfied):
+        ents = [allow.get(k if b is s else b.key()) or match_pattern(b, pats) for b, _, _, _ in bad]
+        ent = ents[0]
+        if all(e and (not e.get("requires") or e["requires"] in satisfied) for e in ents):
             stats["allow"] += 1
             r.ok("site:" + k, fn=s.fn, site=s.at, detail="allow-listed: %s%s" % (ent["reason"], (" [established by %s]" % ent["requires"]) if ent.get("requires") else ""))
             continue
